@@ -171,7 +171,7 @@ func (e *Exec) catchUp() {
 			panic(abortRun{})
 		}
 		j := e.checkStore("catch-up")
-		if e.storeHasAll {
+		if e.caughtUp() {
 			e.drained = true
 			e.probe("caught-up")
 			break
